@@ -4,12 +4,15 @@ import (
 	"bytes"
 	"crypto/sha256"
 	"fmt"
+	"github.com/ulikunitz/xz"
+	"io"
 	"math/rand"
 	"os"
 	"os/exec"
 	"runtime"
 	"strings"
 	"sync"
+	"sync/atomic"
 	"time"
 
 	"github.com/ulikunitz/xz/lzma"
@@ -193,7 +196,94 @@ func c14Inner(seed int64, tier string) (evals, distinct int, problems []string, 
 			samples = append(samples, fmt.Sprintf("%s %s in=%d out=%d", w.kind, w.cfg, len(w.data), len(ref[i])))
 		}
 	}
+	// the shared standard logger (internal/xlog) with debug output enabled: concurrent readers must produce
+	// exactly the lines a sequential run produces, one complete Write per line, no overlapping Writes
+	problems = append(problems, c14Logging()...)
+	evals += 8
 	return evals, len(ws), problems, samples, hashes
+}
+
+// slowSink is a log destination that notices overlapping Write calls and keeps the lines.
+type slowSink struct {
+	mu       sync.Mutex
+	inflight int32
+	overlap  int32
+	lines    []string
+}
+
+func (s *slowSink) Write(p []byte) (int, error) {
+	if atomic.AddInt32(&s.inflight, 1) > 1 {
+		atomic.AddInt32(&s.overlap, 1)
+	}
+	line := string(p) // copy before yielding: the logger may reuse its buffer afterwards
+	time.Sleep(200 * time.Microsecond)
+	cp := string(append([]byte{}, p...))
+	if cp != line {
+		atomic.AddInt32(&s.overlap, 1)
+	}
+	s.mu.Lock()
+	s.lines = append(s.lines, cp)
+	s.mu.Unlock()
+	atomic.AddInt32(&s.inflight, -1)
+	return len(p), nil
+}
+
+func c14Logging() (problems []string) {
+	var buf bytes.Buffer
+	w, err := xz.WriterConfig{BlockSize: 700}.NewWriter(&buf)
+	if err != nil {
+		return []string{"logging phase: " + err.Error()}
+	}
+	w.Write(genText(rand.New(rand.NewSource(7)), 5000))
+	w.Close()
+	stream := buf.Bytes()
+	readAll := func() {
+		r, err := xz.NewReader(bytes.NewReader(stream))
+		if err == nil {
+			io.Copy(io.Discard, r)
+		}
+	}
+	seq := &slowSink{}
+	old := xz.VerifLog(seq, 0)
+	readAll()
+	want := append([]string{}, seq.lines...)
+	conc := &slowSink{}
+	xz.VerifLog(conc, 0)
+	var wg sync.WaitGroup
+	const n = 6
+	for i := 0; i < n; i++ {
+		wg.Add(1)
+		go func() { defer wg.Done(); readAll() }()
+	}
+	wg.Wait()
+	xz.VerifLog(io.Discard, old)
+	if len(want) == 0 {
+		return nil // the library emits no debug lines: nothing shared to observe
+	}
+	if conc.overlap > 0 {
+		problems = append(problems, fmt.Sprintf("data-race: %d overlapping or torn Write calls on the shared logger's destination with %d concurrent readers", conc.overlap, n))
+	}
+	count := map[string]int{}
+	for _, l := range conc.lines {
+		count[l]++
+	}
+	for _, l := range want {
+		if count[l] != n*countOf(want, l) {
+			problems = append(problems, fmt.Sprintf("log lines of %d concurrent readers differ from %d times the sequential lines (line %q: %d times, want %d)", n, n, truncate(l, 40), count[l], n*countOf(want, l)))
+			break
+		}
+	}
+	return problems
+}
+
+func countOf(l []string, x string) int {
+	c := 0
+	for _, y := range l {
+		if y == x {
+			c++
+		}
+	}
+	return c
 }
 
 // cmdC14Fresh computes the output hash of ONE case as the first use of the library in a fresh
